@@ -86,16 +86,18 @@ def stepAnswer (minC now : Int) (m : Int) (rr : RR) : Int :=
   let m := if getTTL rr < m then getTTL rr else m
   stepSig minC now m rr
 
-/-- the `if isNegative { if soa, ok := rr.(*dns.SOA) ... }` part of the Authority loop. -/
-def stepSoa (neg : Bool) (m : Int) (rr : RR) : Int :=
-  match neg, rr.kind with
-  | true, .soa mn => if (mn : Int) * S < m then (mn : Int) * S else m
-  | _, _ => m
+/-- the `if soa, ok := rr.(*dns.SOA) ...` part of the Authority loop: an SOA
+in the authority section bounds by its MINIMUM whatever the response class
+(since /repo 8b1500e; before, only for negative classes). -/
+def stepSoa (m : Int) (rr : RR) : Int :=
+  match rr.kind with
+  | .soa mn => if (mn : Int) * S < m then (mn : Int) * S else m
+  | _ => m
 
-/-- body of the Authority loop (`isNegative` adds SOA.Minttl). -/
-def stepNs (minC now : Int) (neg : Bool) (m : Int) (rr : RR) : Int :=
+/-- body of the Authority loop. -/
+def stepNs (minC now : Int) (m : Int) (rr : RR) : Int :=
   let m := if getTTL rr < m then getTTL rr else m
-  let m := stepSoa neg m rr
+  let m := stepSoa m rr
   stepSig minC now m rr
 
 /-- body of the Additional loop (OPT skipped). -/
@@ -105,9 +107,9 @@ def stepExtra (minC now : Int) (m : Int) (rr : RR) : Int :=
   stepSig minC now m rr
 
 /-- the three loops of `CalculateCacheTTL`, before the bounds. -/
-def scanMin (cfg : Cfg) (msg : Msg) (neg : Bool) (now : Int) : Int :=
+def scanMin (cfg : Cfg) (msg : Msg) (now : Int) : Int :=
   let m := msg.answer.foldl (stepAnswer cfg.minC now) cfg.maxC
-  let m := msg.ns.foldl (stepNs cfg.minC now neg) m
+  let m := msg.ns.foldl (stepNs cfg.minC now) m
   msg.extra.foldl (stepExtra cfg.minC now) m
 
 /-- `dnsutil.CalculateCacheTTL(msg, respType)` at `now`. -/
@@ -117,7 +119,7 @@ def calculateCacheTTL (cfg : Cfg) (msg : Msg) (rt : RespType) (now : Int) : Int 
   | .other => cfg.minC
   | _ =>
     if !hasRecords msg then cfg.minC else
-    let m := scanMin cfg msg rt.isNegative now
+    let m := scanMin cfg msg now
     if m < cfg.minC then cfg.minC
     else if m > cfg.maxC then cfg.maxC
     else m
